@@ -238,6 +238,52 @@ def big_text(rng, src):
     return ''.join(parts)
 
 
+def big_stream_text(rng):
+    """70-150 thousand characters with multi-line opaque regions whose
+    lines end in ';' (a reader that cuts a stream into pieces at ';' line
+    ends, or at a buffer size, shows here)."""
+    parts = []
+    size = 0
+    target = rng.choice([70000, 100000, 150000])
+    k = 0
+    while size < target:
+        k += 1
+        x = rng.random()
+        if x < 0.25:
+            t = "/* note %d;\n   still the comment;\n   end; */\n" % k
+        elif x < 0.45:
+            t = "insert into t values ('line one;\nline two;\n', %d);\n" % k
+        elif x < 0.6:
+            t = "select $b$ first;\n second;\n$b$ as body%d;\n" % k
+        else:
+            t = "select c%d, 'x' from t%d where a = %d; -- c;\n" % (k, k, k)
+        t = t * rng.choice([1, 1, 3])
+        parts.append(t)
+        size += len(t)
+    return ''.join(parts)
+
+
+def check_big_stream(ctx):
+    rec, rng = ctx.rec, ctx.rng
+    rec.case()
+    text = big_stream_text(rng)
+    for api in ('split', 'parse'):
+        rec.monitor('input_forms')
+        ref = observe(api, text, {})
+        got = observe(api, io.StringIO(text), {})
+        if got != ref:
+            n1 = len(ref) if isinstance(ref, list) else ref
+            n2 = len(got) if isinstance(got, list) else got
+            rec.violation('form-stringio-big', {'text': text[:2000],
+                                                'length': len(text),
+                                                'api': api},
+                          '%s of a %d-character text stream gives %s '
+                          'statements, of the same str %s' % (
+                              api, len(text), n2, n1), key=('bigstream', api))
+    rec.count('big_stream_cases')
+    rec.nontrivial(('bigstream', len(text) // 10000))
+
+
 def check_cli(ctx, text, tmpdir, subprocess_too):
     rec, rng = ctx.rec, ctx.rng
     rec.case()
@@ -337,7 +383,9 @@ def shard(ctx):
         while ctx.running():
             k += 1
             text = make_text(rng, src)
-            if k % 45 == 0:
+            if k % 150 == 75:
+                check_big_stream(ctx)
+            elif k % 45 == 0:
                 check_cli(ctx, big_text(rng, src), tmpdir,
                           subprocess_too=(k % 90 == 0))
             elif k % 3 == 0:
